@@ -1291,8 +1291,21 @@ func c16MapsCase(c *c16Ctx, r *Rng, o xOpts, maps []map[string]interface{}) {
 		}
 		return sb.String(), true
 	}
+	fileCalls := 0
 	fileOf := func(f func() error) (content *string, err c16Out) {
+		// the named file either does not exist or already holds LONGER content, which the documented
+		// "if it exists it will be truncated" must make disappear (seed C16-3: file opened without O_TRUNC)
 		os.Remove(path)
+		prefill := ""
+		if fileCalls++; fileCalls%2 == 0 {
+			prefill = strings.Repeat("<old>previous content of the file</old>\n", 300)
+			os.WriteFile(path, []byte(prefill), 0o644)
+		}
+		defer func() {
+			if content != nil && prefill != "" && *content == prefill {
+				content = nil // the call did not touch the file (it failed before opening it): same observable as "no file"
+			}
+		}()
 		err = c16Call(func() ([]byte, error) { return nil, f() })
 		if b, rerr := os.ReadFile(path); rerr == nil {
 			s := string(b)
